@@ -132,14 +132,15 @@ func propC19(a *Analysis, r *Registry) {
 			} else if strings.Contains(ba.Args[0].String(), "Reverse") {
 				b.Eq(rB, name+"/reverse-post-order", a.W.InstrPos(updStore), ba.Args[0], env, "Reverse(po)")
 				if _, en := fc.Recurrence(ba.Args[1]); en.Sub(ba.Args[1]).Equal(S.Int(1)) {
-					b.FullScan("C-scan coverage", name+"/reverse-post-order/all-nodes", a.W.InstrPos(updStore), fc, ba.Args[1], S.MakeFn("len", ba.Args[0]))
+					// (the first element of the reverse post-order is the root, which is skipped anyway)
+					b.FullScanSeeded("C-scan coverage", name+"/reverse-post-order/all-nodes", a.W.InstrPos(updStore), fc, ba.Args[1], S.MakeFn("len", ba.Args[0]))
 				} else {
 					r.Fail(rB, name+"/reverse-post-order/all-nodes", a.W.InstrPos(updStore), "Reverse(po) is not walked from its first element to its last")
 				}
 			} else if ba.Args[0].Equal(po) {
 				if _, en := fc.Recurrence(ba.Args[1]); en.Sub(ba.Args[1]).Equal(S.Int(-1)) {
 					r.OK(rB, name+"/reverse-post-order", a.W.InstrPos(updStore), "the post-order is walked from its last element to its first")
-					b.FullScan("C-scan coverage", name+"/reverse-post-order/all-nodes", a.W.InstrPos(updStore), fc, ba.Args[1], S.MakeFn("len", po))
+					b.FullScanSeeded("C-scan coverage", name+"/reverse-post-order/all-nodes", a.W.InstrPos(updStore), fc, ba.Args[1], S.MakeFn("len", po))
 				} else {
 					r.Fail(rB, name+"/reverse-post-order", a.W.InstrPos(updStore), "the post-order is walked forwards: nodes are not processed in reverse post-order")
 				}
